@@ -4,6 +4,7 @@
 #include <stdexcept>
 #include <cmath>
 #include <array>
+#include <limits>
 
 namespace OP2Utility
 {
@@ -79,6 +80,15 @@ namespace OP2Utility
 
 	void BitmapFile::VerifyPixelSizeMatchesImageDimensionsWithPitch(uint16_t bitCount, int32_t width, int32_t height, std::size_t pixelsWithPitchSize)
 	{
+		if (width < 0) {
+			throw std::runtime_error("Bitmap width may not be negative");
+		}
+
+		// The absolute value of the most negative height is not representable
+		if (height == std::numeric_limits<int32_t>::min()) {
+			throw std::runtime_error("Bitmap height is out of range");
+		}
+
 		if (pixelsWithPitchSize != ImageHeader::CalculatePitch(bitCount, width) * std::abs(height)) {
 			throw std::runtime_error("The size of pixels does not match the image's height times pitch");
 		}
